@@ -296,6 +296,30 @@ func checkEncryptedSSHStanzaLoop(p *Program, r *Result) {
 					if errOnly {
 						continue
 					}
+					// the same along the paths that take this exit: behind the merge of a spliced
+					// helper's results the error test is decided by the value that came in on this way
+					if paths, okp := p.EnumPathsStop(b, set); okp {
+						n, all := 0, true
+						for _, pa := range paths {
+							if len(pa.Blocks) < 2 || pa.Blocks[1] != sb {
+								continue
+							}
+							n++
+							ret, isRet := pa.Last.(*ssa.Return)
+							if pa.End != "return" || !isRet {
+								all = false
+								break
+							}
+							rs := resultsOf(ret)
+							if len(rs) != 2 || !p.definitelyNonNil(stripConv(pa.Resolve(rs[1])), 0) {
+								all = false
+								break
+							}
+						}
+						if all && n > 0 {
+							continue
+						}
+					}
 				}
 				facts := tb.FactsAt(b)
 				if _, isIf := b.Instrs[len(b.Instrs)-1].(*ssa.If); isIf {
